@@ -5,7 +5,7 @@
 From Coq Require Import List NArith ZArith Bool.
 From YK Require Import Base.Int64 Base.Res Base.ResSpec
      Ugm.Tracker Ugm.Manager Ugm.UgmSpec Ugm.TrackerFacts Ugm.Enforce Ugm.Conserve Ugm.ConserveM Ugm.ConserveEx
-     Ugm.Reload Oracles.UgmCheck.
+     Ugm.Reload Ugm.ReloadFirst Oracles.UgmCheck.
 Import ListNotations.
 Open Scope N_scope.
 
@@ -96,3 +96,28 @@ Theorem reload_order_refuted :
 Proof. exact reload_order_refuted_lemma. Qed.
 Print Assumptions reload_order_refuted.
 
+(* Limits that are exact stay exact until the next reload: from any state in which every tracker
+   carries the limit of the configuration (KInv: expected limit on every tracker, trackers of
+   named limits exist, the wild card configuration gives the expected limit everywhere else),
+   for a configuration whose named limits count (conf_real), every history without a reload
+   leaves the limit in force for every user and group on every queue equal to the
+   configuration's.  Nested queues included. *)
+Theorem limits_stable : forall conf s0 ops s,
+  conf_real conf -> KInv conf s0 -> no_config ops -> run s0 ops = Some s ->
+  forall w names, who_ok w -> limit_exact s conf w (ROOT :: names) = true.
+Proof. exact limits_stable_lemma. Qed.
+Print Assumptions limits_stable.
+
+(* PARTIAL: the class on which the configuration clause is proved from the initial state: the
+   first configuration loaded into a fresh manager, with all limits on the root queue (named
+   users, wild card user, named groups, wild card group; limits that count; quantities that
+   parse), followed by any history without a reload.  Then the limit in force for every
+   user/group on every queue equals the limit of that configuration.  Missing: the load of
+   configurations with limits on nested queues (limits_stable covers what follows such a load),
+   and reload sequences (refuted in general above). *)
+Theorem reload_exact_partial : forall conf rn ops s,
+  root_only conf -> qlower rn = ROOT ->
+  no_config ops -> run ugm_init (OConfig conf rn :: ops) = Some s ->
+  forall w names, who_ok w -> limit_exact s conf w (ROOT :: names) = true.
+Proof. exact reload_exact_partial_lemma. Qed.
+Print Assumptions reload_exact_partial.
